@@ -50,6 +50,17 @@ MUT = {
     "setparameter-behaviour-wrong": lambda i, s: s,
 }
 
+# mutations that depend on the spec of the program: f(interface, source, spec)
+SPEC_MUT = {
+    # the seeded defect of SingleVariableInterpolatedData::extract: the string "constant" taken as "extrapolate"
+    "data-constant-means-extrapolate": lambda i, s, spec: s.replace("Interpolation<false>", "Interpolation<true>")
+    if spec.get("kind") == "data" and spec["data"]["extrapolation"] == "constant" else s,
+    "data-bound_to_last_value-means-extrapolate": lambda i, s, spec: s.replace("Interpolation<false>", "Interpolation<true>")
+    if spec.get("kind") == "data" and spec["data"]["extrapolation"] == "bound_to_last_value" else s,
+    "data-absent-extrapolation-means-constant": lambda i, s, spec: s.replace("Interpolation<true>", "Interpolation<false>")
+    if spec.get("kind") == "data" and spec["data"]["extrapolation"] is None else s,
+}
+
 BHV_MUT = {
     "parameter-default-symbol-scaled": MUT["parameter-default-symbol-scaled"],
     "lower-bound-symbol-dropped": MUT["lower-bound-symbol-dropped"],
@@ -74,7 +85,17 @@ def main():
             return s
         return f
     orig = mpgen.compile_iface
-    mpgen.compile_iface = lambda cwd, spec, i, flags=("-O1",), mutate=None: orig(cwd, spec, i, flags, compose(MUT))
+    def with_spec(spec):
+        f = compose(MUT)
+
+        def g(i, s):
+            s = f(i, s)
+            for m in muts:
+                if m in SPEC_MUT:
+                    s = SPEC_MUT[m](i, s, spec)
+            return s
+        return g
+    mpgen.compile_iface = lambda cwd, spec, i, flags=("-O1",), mutate=None: orig(cwd, spec, i, flags, with_spec(spec))
     if any(m in BHV_MUT for m in muts):
         orig_bl = gen.build_library
 
